@@ -150,6 +150,7 @@ pub fn cases(ctx: &Ctx) -> Vec<Case> {
             v.push(Case::PemVariant(rng.next(), var));
         }
         v.push(Case::Many(rng.next(), 1 + rng.below(6) as u8));
+        v.push(Case::Many(rng.next(), 0x40 | (2 + rng.below(5) as u8)));
     }
     // totality: exhaustive single-byte substitutions of the four DER forms
     let seed = rng.array32();
@@ -244,12 +245,35 @@ fn tlv(tag: u8, content: &[u8], long_form: u8) -> Vec<u8> {
 /// PKCS#8 private / SubjectPublicKeyInfo public structures with correct lengths and odd contents
 fn structured_der(rng: &mut Rng, i: usize) -> Vec<u8> {
     let lf = |rng: &mut Rng| if rng.chance(1, 6) { 1 + rng.below(2) as u8 } else { 0 };
-    let oid: Vec<u8> = match rng.below(6) {
+    let oid: Vec<u8> = match rng.below(7) {
         0 => vec![0x2b, 0x65, 0x70],
         1 => vec![0x2b, 0x65, 0x6e],
         2 => vec![0x2b, 0x65, 0x71],
         3 => vec![],
         4 => vec![0x2a, 0x86, 0x48, 0x86, 0xf7, 0x0d, 0x01, 0x01, 0x01],
+        5 => {
+            // OID grammar corners: arcs wider than 64 bits, padded arcs, an unterminated arc, a long OID
+            match rng.below(5) {
+                0 => {
+                    let mut o = vec![0x2b];
+                    o.extend(std::iter::repeat(0xff).take(1 + rng.usize_below(20)));
+                    o.push(0x7f);
+                    if rng.chance(1, 2) {
+                        o.push(0x70);
+                    }
+                    o
+                }
+                1 => {
+                    let mut o = vec![0x2b, 0x65];
+                    o.extend(std::iter::repeat(0x80).take(1 + rng.usize_below(12)));
+                    o.push(0x70);
+                    o
+                }
+                2 => vec![0x2b, 0x65, 0xf0],
+                3 => vec![0x01; 130],
+                _ => vec![0xff, 0xff, 0xff, 0xff, 0xff, 0xff, 0xff, 0xff, 0xff, 0xff, 0x7f],
+            }
+        }
         _ => {
             let n = 1 + rng.usize_below(6);
             rng.bytes(n)
@@ -405,14 +429,29 @@ pub fn run_case(ctx: &mut Ctx, c: &Case) {
         }
         Case::Many(seed, n) => {
             ctx.eval(*seed ^ 0x3A17, true);
-            ctx.count("pem_many");
+            ctx.count(if *n & 0x40 != 0 { "pem_many_with_repeated_keys" } else { "pem_many" });
             let r = guarded(|| -> Result<(), String> {
                 let mut rng = Rng::new(*seed);
                 let mut text = String::new();
                 let mut want = Vec::new();
-                for i in 0..*n {
-                    let sk = rng.array32();
-                    let (der, key) = if i % 2 == 0 {
+                // keys may repeat in a list (same block twice, or an Ed25519 key next to the X25519 key
+                // it converts to): bit 6 of n asks for repeats, the list is then drawn from 2 secrets
+                let repeats = *n & 0x40 != 0;
+                let count = *n & 0x3f;
+                let pool = [rng.array32(), rng.array32()];
+                for i in 0..count {
+                    let sk = if repeats { pool[usize::from(rng.chance(1, 4))] } else { rng.array32() };
+                    let as_x = if repeats { rng.chance(1, 2) } else { i % 2 == 0 };
+                    let (der, key) = if as_x {
+                        let (_, _, _, mont) = ed_pair(&sk);
+                        if repeats {
+                            // the X25519 form of the same Ed25519 key
+                            let mut d = PUB_X.to_vec();
+                            d.extend_from_slice(&mont);
+                            text.push_str(&pem("PUBLIC KEY", &d, 64, "\n", true));
+                            want.push(mont);
+                            continue;
+                        }
                         let k = crate::c19::x25519_base(&sk);
                         let mut d = PUB_X.to_vec();
                         d.extend_from_slice(&k);
